@@ -105,7 +105,7 @@ class BoundedReader {
 
   template <typename HandleType>
   constexpr Status<HandleType> GetHandle(HandleReference handle_reference) {
-    return reader_->GetHandle(handle_reference);
+    return reader_->template GetHandle<HandleType>(handle_reference);
   }
 
   constexpr bool empty() const { return index_ == size_; }
